@@ -29,7 +29,7 @@ check("C10", "proof",
       "pairs: representation invariant + whole-view postconditions, one SMT query per path and clause generated from "
       "the real AST on every run; ground MRO obligations tie the four container classes to those functions. Induction "
       "over histories then gives the property for histories of any length. A bounded history enumeration on the real "
-      "classes runs alongside as engine cross-check and replay source and is not counted as proof.",
+      "classes (incl. operations on a second container built from the first) runs alongside as engine cross-check and replay source and is not counted as proof.",
       "Trusted: the pyvc encoding of the Python subset, z3 unsat answers, sequence-theory axioms (Lean-checked in the "
       "thorough tier), assumed contract of _insert_arg_helper (bounded-checked), key/value equality is an equivalence; "
       "update/extend with a plain dict argument are bounded only.",
@@ -66,9 +66,11 @@ check("C13", "proof",
       "PDSLabelEncoder._replace_value, called only from encode() for the documented PDS3 GROUP->OBJECT conversion - whose effect "
       "on the caller's container (the item at the index is replaced, every other item keeps its place) is a contract discharged "
       "by the T_seq verifier against the C10 contracts of OrderedMultiDict.items/clear/extend; the shape of the two call sites "
-      "(arguments from enumerate(module.items()), guarded by the group test, followed by break) is a structural obligation. "
+      "(arguments from enumerate(module.items()), guarded by the group test, followed by break / return; in encode() or a private "
+      "helper only encode() calls) is a structural obligation per site, and a ground obligation shows the by-position branch covers every "
+      "bundled multi-dict class (both container families). "
       "Determinism obligations (no time/random/environment reads) give "
-      "repeatability. A bounded snapshot-before/after driver runs alongside (not proof).",
+      "repeatability. A bounded snapshot-before/after driver (10 routes incl. pvl.new.dumps on the pvl.new classes) runs alongside (not proof).",
       "Trusted: the frame back end's conservative points-to classification; set iteration order is fixed within a process; "
       "quantity-class attribute getters are pure; the OrderedMultiDict contracts used by _replace_value are the ones check C10 discharges.",
       "contract-based verification: frame (modifies) obligations per store site over the real AST + SMT contract of the one permitted mutator against the C10 callee contracts; bounded snapshot driver as stand-in",
@@ -134,7 +136,7 @@ check("C09", "other",
       "Mixed. Proved: 'the parser requests no token beyond the END statement' - parse_end_statement requests at most one "
       "token and marks the stream ended, parse_module/parse return at once, and every next() site of every parser method "
       "carries the obligation `not after END` (pyvc T_tok); the lexer's look-ahead is bounded by i+1 (+ one startswith) "
-      "(structural obligation); loads/dump/dumps wiring (structural obligations). Bounded: agreement of the seven entry routes "
+      "(structural obligation over the reads of the text, followed into the pvl.lexer helpers it is handed to); loads/dump/dumps wiring (structural obligations). Bounded: agreement of the seven entry routes "
       "and behaviour on trailing bytes depends on pathlib/codecs/stream buffering (exception-driven route selection in "
       "get_text_from) - labels x trailing families x separators x routes, with a counting lexer function.",
       PARSER_NOTE + " Path.read_text/write_text, stream read/write/tell/seek, urlopen: library behaviour, bounded only.",
@@ -196,7 +198,8 @@ BOUNDED = {
          "spans encoder, lexer, parser and decoder; with the lexer's main loop unproved no contract decides it, so the level is "
          "bounded. Discharged alongside (not lifting the level): T_enc contracts on the writer side - needs_quotes == the "
          "statement's quoting rule, encode_string / is_symbol renderings for every receiver class, encode_simple_value's dispatch "
-         "order - and the same contract objects evaluated at run time on the real methods.", "DESIGN.md §3 C01/C02/C07"),
+         "order -, the Token predicate contracts that quoting rule calls through, ground obligations tying the writer's and the "
+         "readers' keyword tables together, and the same contract objects evaluated at run time on the real methods.", "DESIGN.md §3 C01/C02/C07"),
  "C02": ("exploration", "As C01 with the default permissive loader (pvl.loads with no arguments) reading every encoder's output (T_enc writer-side contracts as in C01).", "DESIGN.md §3 C01/C02/C07"),
  "C07": ("exploration", "load -> dump -> load -> dump over the corpus, a spelling catalogue, generated texts and token mutants x 4 "
          "encoders: second load equal up to the C01 normalisations, second dump byte-identical up to set order (T_enc writer-side contracts as in C01).", "DESIGN.md §3 C01/C02/C07"),
